@@ -41,7 +41,7 @@ def group(gid, ref, variants, reps=2):
 def c07_cases(tier, rng):
     # half of the cases with the greedy breaker: it has the most order-sensitive bookkeeping (sources / sinks / reversal lists)
     combos = grid(p1=["greedy", "dfs", "greedy", "dfsrand"], p2=K.P2S, p4=K.P4_ALL, p5=["poly", "ortho", "straight", "splines"],
-                  size=["all", "fixed+some"], pat=["het", "odd"])
+                  size=["all", "fixed+some"], pat=["het", "odd"], virt=[0, 1])
     # inputs on which order-sensitive iteration can matter: several components, self-loops, parallel/antiparallel pairs
     inputs = [(n, e) for n, e, r in K.family(fam_E(tier)) if r["conn"] == 0 or r["loops"] >= 1 or r["simple"] == 0 or len(e) >= 4]
     rng.shuffle(inputs)
